@@ -2099,13 +2099,17 @@ class BADS:
             ):
                 self.logger.warn("bads:optimize: Acquisition function failed")
                 index_acq = np.random.randint(0, len(u_poll) + 1)
-            if logging.getLogger().level > logging.DEBUG:
-                np.seterr(divide="ignore")
-            gamma_z = (
-                self.optim_state["f_target"]
-                - self.sufficient_improvement
-                - f_mu
-            ) / fs
+            # (scoped: the caller's NumPy error settings are not changed)
+            with np.errstate(
+                divide="ignore"
+                if logging.getLogger().level > logging.DEBUG
+                else np.geterr()["divide"]
+            ):
+                gamma_z = (
+                    self.optim_state["f_target"]
+                    - self.sufficient_improvement
+                    - f_mu
+                ) / fs
             if np.all(np.isfinite(gamma_z)) and np.all(np.isreal(gamma_z)):
                 f_pi = 0.5 * erfc(-gamma_z / np.sqrt(2))
                 # sort descend
